@@ -557,7 +557,7 @@ func (s *vSched) choose(cs []vChoice, step int) vChoice {
 				}
 			}
 			for _, c := range cs {
-				if c.actor != nil && (c.actor.gate.pt == vpxStart || c.actor.gate.pt == vpxBlockUntil) && !strings.HasPrefix(c.actor.name, "task") && !strings.HasPrefix(c.actor.name, "hup") {
+				if c.actor != nil && (c.actor.gate.pt == vpxStart || c.actor.gate.pt == vpxBlockUntil || c.actor.gate.pt == vpxUser) && !strings.HasPrefix(c.actor.name, "task") && !strings.HasPrefix(c.actor.name, "hup") {
 					return c
 				}
 			}
